@@ -9,7 +9,7 @@ CHECK = {
     "lean_module": "CloakModel.Props.C01All",
     "scenarios": ["C01", "C01dl", "C01backlog"],
     "reset_ops": ["ss.new", "spl.new"],
-    "rule": "lagging reader (scenario C01backlog): ordered session pairs, 1.2-1.6 MB (thorough: 9 MB, 3 MB in one-byte writes) written on one stream while nobody reads, drained, then a tail; what is read must be exactly what was written. "
+    "rule": "lagging reader (scenario C01backlog): ordered session pairs, 1.2-1.6 MB (thorough: 9 MB, 150 kB in one-byte writes) written on one stream while nobody reads, drained, then a tail; what is read must be exactly what was written. "
             "read deadlines (scenario C01dl): seeded scripts on the real streamBufferedPipe inside a synctest bubble (writes, reads that return / time out / park and are woken by a write, close, new deadline or the pipe's timer; deadlines set / moved / cleared / already expired; time passing across and exactly up to the deadline), every answer and the fill compared with Model/StreamPipeDeadline.lean; "
             "core rig: session pairs (4 methods, 1..8 connections, singleplex, 1..64 (..500 thorough) streams), writes of sizes {1,2,unit-1,unit,unit+1,2unit+3,random} "
             "in both directions, every captured record delivered by the harness in a seeded cross-connection order with reads/accepts interleaved, every step "
